@@ -29,7 +29,7 @@ def main(tier, replay=None):
     chk.proofs(extra_targets=["Corr/InstCorr.vo", "Corr/SpecCorr.vo"])
     rng = chk.rng
     quick = tier == "quick"
-    n = 260 if quick else 3600
+    n = 360 if quick else 4000
     cases = []
     for i in range(n):
         flavour = "frozen" if i % 9 == 0 else None
